@@ -1,2 +1,110 @@
-(* placeholder until RadixProofs.v is written *)
-From FV Require Import Radix.RadixModel.
+(* C09: rcu_radixtree is an exact map over all 64-bit keys, with stable addresses and ordered iteration.
+   Model: Radix/RadixModel.v (the code as it is in /repo after the D03 fix); definitions used in the statements:
+   K64 = 2^64 (RadixBits), Good s M = heap invariant + mask/slot consistency + (forall k < 2^64, find s k = Ok (M k)),
+   gset/ghost_step/pre_ok/res_ok/valid/safe_outcome (RadixHist). *)
+From Coq Require Import List NArith Bool.
+From FV Require Import Common.EventLog Radix.RadixModel Radix.RadixBits Radix.RadixInv Radix.RadixSpec Radix.RadixHist.
+Import ListNotations.
+Local Open Scope N_scope.
+
+(* --- bit-level facts, isolated as div/mod statements (hi k d = k / 16^(16-d)) *)
+Theorem C09_pfx_of_is_div : forall k d, k < K64 -> d <= 16 -> pfx_of k d = Ok (k / 16 ^ (16 - d) * 16 ^ (16 - d)).
+Proof. exact pfx_of_ok. Qed.
+Print Assumptions C09_pfx_of_is_div.
+
+Theorem C09_idx_of_is_mod : forall k d, d <= 15 -> idx_of k d = Ok (k / 16 ^ (16 - (d + 1)) mod 16).
+Proof. exact idx_of_ok. Qed.
+Print Assumptions C09_idx_of_is_mod.
+
+(* --- no undefined behaviour: on every history (keys < 2^64) of find / find_or_insert / insert / erase, whatever the
+   arguments, the run ends Ok or in one of the documented precondition assertions (insert of a present key, erase of an
+   absent key).  In particular: no pfx_of/idx_of call shifts by >= 64 (UB UShift), the case-2 loop never runs out of
+   fuel and the three assertions after it (d > p->depth, d < s->depth, the indices differ) never fire. *)
+Theorem C09_no_ub : forall esz lsz ops,
+  Forall op_keys_ok ops -> Forall (fun o => is_iter o = false) ops ->
+  safe_outcome (run_ops esz lsz st0 ops).
+Proof. intros esz lsz ops. exact (history_safe esz lsz ops st0 gempty Good_st0). Qed.
+Print Assumptions C09_no_ub.
+
+(* --- the tree refines the ghost map: after every history that respects the documented preconditions, for every
+   k < 2^64, find k = M k *)
+Theorem C09_refines_map : forall esz lsz ops,
+  valid esz lsz st0 gempty ops ->
+  exists s M, run_ghost esz lsz st0 gempty ops = Ok (s, M) /\ Good s M /\
+              forall k, k < K64 -> find s k = Ok (M k).
+Proof.
+  intros esz lsz ops V. destruct (history_refines esz lsz ops st0 gempty Good_st0 V) as (s & M & R & G).
+  exists s, M. split; [exact R|]. split; [exact G|]. exact (g_find _ _ G).
+Qed.
+Print Assumptions C09_refines_map.
+
+(* --- one step from any good state: results are those of the map; find_or_insert returns the present address with
+   false, or a fresh address (not the address of any present key) with true; never a second address *)
+Theorem C09_step_semantics : forall esz lsz s M o,
+  Good s M -> op_keys_ok o -> is_iter o = false ->
+  (exists s' r, step_op esz lsz s o = Ok (s', r) /\ Good s' (ghost_step M o r) /\ res_ok M o r) \/
+  (~ pre_ok M o /\ exists w, step_op esz lsz s o = AssertStop w /\ pre_assert w).
+Proof. exact step_safe. Qed.
+Print Assumptions C09_step_semantics.
+
+Theorem C09_find_or_insert : forall esz lsz s M k v, Good s M -> k < K64 ->
+  exists s' a b, find_or_insert esz lsz s k v = Ok (s', (a, b)) /\
+    (forall a0, M k = Some a0 -> a = a0 /\ b = false /\ s' = s) /\
+    (M k = None -> b = true /\ forall k', k' < K64 -> M k' <> Some a) /\
+    Good s' (if b then gset M k (Some a) else M).
+Proof. exact foi_good. Qed.
+Print Assumptions C09_find_or_insert.
+
+(* two present keys never share an address *)
+Theorem C09_addresses_injective : forall s k k' a, Inv_s s -> k < K64 -> k' < K64 ->
+  find s k = Ok (Some a) -> find s k' = Ok (Some a) -> k = k'.
+Proof. exact find_inj. Qed.
+Print Assumptions C09_addresses_injective.
+
+(* --- address stability: whatever else is inserted or erased (or looked up), a present key keeps its address *)
+Theorem C09_address_stable : forall esz lsz s M o s' r k a,
+  Good s M -> op_keys_ok o -> is_iter o = false -> k < K64 -> M k = Some a ->
+  step_op esz lsz s o = Ok (s', r) -> o <> OErase k -> find s' k = Ok (Some a).
+Proof. exact step_address_stable. Qed.
+Print Assumptions C09_address_stable.
+
+(* --- non-vacuity *)
+Definition ex_ops : list op :=
+  [OInsert 5 1; OInsert 1152921504606846981 2 (* 0x1000000000000005 *); OFoi 18446744073709551615 3; OFind 5;
+   OErase 5; OFoi 5 4; OFoi 5 6; OInsert 21 7].
+
+Example C09_ex_run :
+  match run_ghost 1 2 st0 gempty ex_ops with
+  | Ok (s, M) => (find s 5, M 5, find s 1152921504606846981, find s 18446744073709551615, find s 6, length (nodes s))
+                 = (Ok (Some (0%nat, 5)), Some (0%nat, 5), Ok (Some (1%nat, 5)), Ok (Some (3%nat, 15)), Ok None, 7%nat)
+  | _ => False
+  end.
+Proof. vm_compute. reflexivity. Qed.
+
+Ltac valid_step :=
+  cbn [valid]; split; [vm_compute; reflexivity|]; split; [reflexivity|]; split; [vm_compute; try reflexivity; try discriminate|];
+  intros ? ? E; vm_compute in E; injection E as <- <-.
+
+Example C09_ex_valid : valid 1 2 st0 gempty ex_ops.
+Proof. unfold ex_ops. repeat valid_step. exact I. Qed.
+
+Example C09_ex_no_ub_hyps : Forall op_keys_ok ex_ops /\ Forall (fun o => is_iter o = false) ex_ops.
+Proof. split; repeat constructor. Qed.
+
+(* D03 regression: the two keys differ in the top nibble; the older one is still found (the unfixed code lost it) *)
+Example C09_ex_d03 :
+  match run_ops 1 2 st0 [OInsert 5 1; OInsert 1152921504606846981 2] with
+  | Ok s => (find s 5, root s, nth_error (nodes s) 2) =
+            (Ok (Some (0%nat, 5)), Some 2%nat,
+             Some (Link 0 0 None [Some 0%nat; Some 1%nat; None; None; None; None; None; None; None; None; None; None; None; None; None; None]))
+  | _ => False
+  end.
+Proof. vm_compute. reflexivity. Qed.
+
+(* insert of a present key / erase of an absent key stop in the documented assertions *)
+Example C09_ex_asserts :
+  run_ops 1 2 st0 [OInsert 5 1; OInsert 5 2] = AssertStop AInsertPresent /\
+  run_ops 1 2 st0 [OInsert 5 1; OErase 6] = AssertStop AEraseMask /\
+  run_ops 1 2 st0 [OErase 6] = AssertStop AEraseNull /\
+  run_ops 1 2 st0 [OInsert 5 1; OErase 21] = AssertStop AErasePrefix.
+Proof. vm_compute. repeat split. Qed.
